@@ -3,6 +3,7 @@ package main
 import (
 	"verifh/checks/c01"
 	"verifh/checks/c02"
+	"verifh/checks/c03"
 	"verifh/checks/c07"
 	"verifh/checks/c14"
 	"verifh/mc"
@@ -11,6 +12,7 @@ import (
 var registry = map[string]*mc.Check{
 	"C01": c01.Check,
 	"C02": c02.Check,
+	"C03": c03.Check,
 	"C07": c07.Check,
 	"C14": c14.Check,
 }
